@@ -692,6 +692,11 @@ for s in pool:
             row.append('unhashable' if 'unhashable' in str(e) else 'TypeError:' + str(e)[:80])
         except Exception as e:
             row.append(type(e).__name__ + ':' + str(e)[:80])
+    try:
+        import base64
+        row.append('P:' + base64.b64encode(pickle.dumps(c17.build(s, 0))).decode())
+    except Exception as e:
+        row.append('P:!' + type(e).__name__ + ':' + str(e)[:80])
     out.append(row)
 print(json.dumps(out))
 '''
@@ -715,9 +720,27 @@ def run_xproc(case):
     if p.returncode != 0:
         return dict(verdict='harness', vclass='xproc-child-failed', detail=p.stderr.decode()[-800:])
     there = json.loads(p.stdout.decode().strip().splitlines()[-1])
+    pickled = [row.pop() for row in there]
     keys = [core.canon(spec_key(s)) for s in pool]
     log = []
     seen = {}
+    # values pickled by the other interpreter, unpickled here: same hash, and the same object as a live local one if interned
+    import base64
+    for s, a, pk in zip(pool, here, pickled):
+        if any(':' in h or h.startswith('unhashable') for h in a):
+            continue   # reported by the loop below
+        if pk.startswith('P:!'):
+            return viol('E-pickle-raised', f'{s}: pickling in the child interpreter failed: {pk[3:]}', case, log)
+        local = build(s, 0)
+        try:
+            v = pickle.loads(base64.b64decode(pk[2:]))
+        except Exception as e:
+            return viol('E-pickle-raised', f'{s}: a pickle written by another interpreter cannot be loaded: {type(e).__name__}: {e}'[:300], case, log)
+        if _hash(v) != a[0]:
+            return viol('H-interpreter-dependent', f'{s}: value pickled in an interpreter with PYTHONHASHSEED={case["hashseed"]} hashes to {_hash(v)[:10]} here, built here {a[0][:10]}', case, log)
+        if is_interned(s) and v is not local:
+            return viol('I-interning-lost-after-pickle', f'{s}: unpickling a value written by another interpreter gives a second object while an equal one is alive', case, log)
+        del v, local
     for i, (s, a, b) in enumerate(zip(pool, here, there)):
         if any(h.startswith(('TypeError', 'unhashable')) for h in a + b):
             return viol('E-unhashable', f'{s}: {[h for h in a + b if h.startswith(("TypeError", "unhashable"))][0]}', case, log)
